@@ -79,6 +79,12 @@ def runSection (r : Report) (s : Section) : Report := Id.run do
         else r := r.mismatch s.idx l.idx "inject-before-calls-once-per-key" (joinSp l.op)
       | _, _, _ => r := r.mismatch s.idx l.idx "unparsable-line" (joinSp (l.op ++ ["=>"] ++ l.obs))
       continue
+    if mode = "rm" && l.op.head? = some "corrupt" then
+      -- an undecodable cache entry (cacheNode.processCache deletes it and reports not-found): to the model the key is
+      -- absent (`RM.CacheRead.corrupt` behaves like `empty` in `RM.doTakeClosure`), so the row must be loaded once
+      if l.obs = ["ok"] && hist.isEmpty then r := r.addCover "cacheNode.Take-corrupt-entry-before-the-calls"
+      else r := r.mismatch s.idx l.idx "corrupt-before-calls" (joinSp (l.op ++ ["=>"] ++ l.obs))
+      continue
     if mode = "rm" && l.op = ["close"] then
       closeLine := some l
       continue
